@@ -332,6 +332,12 @@ def run(run):
     cases += [{"a": a, "b": b} for a in tie_ops for b in tie_ops]
     small = [{"s": [[c, {"0": "X"}], [1.0, {"1": "Z"}]]} for c in (2e-7, 4e-7, 1e-7, 3e-7, 4.9e-7, -2e-7)] + [{"t": [c, {"0": "X", "2": "Y"}]} for c in (2e-7, 4e-7, -3e-7, [2e-7, 2e-7], [2e-7, -2e-7])]
     cases += [{"a": a, "b": b} for a in small for b in small]
+    # the same small coefficient (1e-7 .. 1e-3: above the 1e-8 tolerance, around and below numpy's default 1e-5 closeness) on DIFFERENT strings:
+    # the operators differ by that much as matrices, so they are unequal - as bare terms, as one-term sums and next to an O(1) term
+    for c in (1e-7, 3e-6, 5e-5, 1e-4, 1e-3, [0, 5e-5], [5e-5, 5e-5], -5e-5):
+        tiny = [{"t": [c, st]} for st in ({"0": "X"}, {"0": "Z"}, {"1": "X"}, {"0": "X", "1": "Y"}, {})]
+        tiny += [{"s": [[c, st]]} for st in ({"0": "X"}, {"0": "Z"}, {})] + [{"s": [[c, st], [1.0, {"2": "Z"}]]} for st in ({"0": "X"}, {"0": "Z"}, {"1": "Y"})]
+        cases += [{"a": a, "b": b} for a in tiny for b in tiny]
     secs.append(Section("equality", cases, eq_case, desc="== on all ordered pairs of simplified pool members vs matrix equality"))
     cases = []
     for st in strings([0, 1, 2]):
